@@ -46,7 +46,8 @@ struct Chainstate {
 }
 extern "C" { extern const xc::xc_CBlockIndex* g_tip; int xc_ActivateBestChain_round(const xc::xc_CBlockIndex*, const xc::xc_CBlockIndex*);
   const xc::xc_CBlockIndex* FindMostWorkChain_stub(void) { int k = pick(g_sc->fmw, g_sc->i_fmw); return k < 0 ? nullptr : &g_pool_x[k]; }
-  bool ActivateBestChainStep_stub(const xc::xc_CBlockIndex*, bool* inv) { g_sc->steps++; size_t i = g_sc->i_step++; *inv = g_sc->step_invalid[i % g_sc->step_invalid.size()]; int nt = g_sc->step_newtip[i % g_sc->step_newtip.size()]; if (nt >= 0) g_tip = &g_pool_x[nt]; return g_sc->step_ok[i % g_sc->step_ok.size()]; }
+  struct xConnected { size_t n; };
+  bool ActivateBestChainStep_stub(const xc::xc_CBlockIndex*, bool* inv, xConnected* cl) { cl->n = 0; g_sc->steps++; size_t i = g_sc->i_step++; *inv = g_sc->step_invalid[i % g_sc->step_invalid.size()]; int nt = g_sc->step_newtip[i % g_sc->step_newtip.size()]; if (nt >= 0) g_tip = &g_pool_x[nt]; return g_sc->step_ok[i % g_sc->step_ok.size()]; }
   bool ReachedTarget_stub(void) { return pick(g_sc->reached, g_sc->i_r) != 0; }
   bool WorkComparator_stub(const xc::xc_CBlockIndex*, const xc::xc_CBlockIndex*) { return pick(g_sc->worse, g_sc->i_w) != 0; } }
 #define BAD(...) do { rv::g_stats.real_violations++; if (rv::g_stats.real_violations <= 8) { std::printf("REAL-VIOLATION " __VA_ARGS__); std::printf("\n"); } } while (0)
